@@ -4,7 +4,7 @@
 From Coq Require Import List String Ascii NArith Lia Bool Arith.
 Import ListNotations.
 Require Import P.Generated.Enums P.Spec.Values P.Generated.Tables P.Meta.Scan P.Model.Base P.Model.Token P.Model.Reader P.Model.Trace
-  P.Model.Writer P.Model.Pool P.Model.Walk P.Model.Builder P.Model.Atom P.Spec.Events P.Spec.Pool P.Spec.Valence P.Spec.Normal P.Spec.Known P.Spec.Graph P.Checks.C18_defs P.Checks.Token_defs.
+  P.Model.Writer P.Model.Pool P.Model.Walk P.Model.Builder P.Model.Atom P.Spec.Events P.Spec.Pool P.Spec.Valence P.Spec.Normal P.Spec.Known P.Spec.Graph P.Spec.Denote P.Spec.Roundtrip P.Checks.C18_defs P.Checks.Token_defs.
 Local Open Scope string_scope.
 
 Fixpoint show_N_aux (fuel : nat) (n : N) (acc : string) : string :=
@@ -25,6 +25,18 @@ Definition wres_eqb (a b : wres) := match a, b with WOk, WOk => true | WErr e, W
 Definition otext_eqb (a b : option (list N)) := opt_eqb (list_eqb N.eqb) a b.
 Definition orange_eqb (a b : option (nat * nat)) := opt_eqb (fun x y => Nat.eqb (fst x) (fst y) && Nat.eqb (snd x) (snd y)) a b.
 
+Definition has_known_kind (h : list ev) : bool := existsb (fun e => match e with EExtend _ k => known_invert_panic k | _ => false end) h.
+(* C02 / C10 oracle: the graph (or the error) the implementation built against the denotation of the event history *)
+Definition denote_agrees (h : list ev) (b : bres') : bool :=
+  if has_known_kind h then true else
+  match b, denote_events h with
+  | B'Skip, _ => true
+  | B'Ok g, Some (DOk g') => list_eqb atom_eqb g g'
+  | B'Err (BJoin x y), Some (DJoin x' y') => Nat.eqb x x' && Nat.eqb y y'
+  | B'Err (BRnum rid), Some (DUnmatched occs) => existsb (Nat.eqb rid) occs
+  | _, _ => false
+  end.
+Definition built_is_simple (b : bres') : bool := match b with B'Ok g => wf g | _ => true end.
 (* ------------------------------------------------------------ reader *)
 Record reader_case := RC { rc_in : list N; rc_verdict : verdict; rc_events : list ev; rc_atoms : list (option (nat * nat));
   rc_rnums : list (option (nat * nat)); rc_bonds : list (nat * nat * option nat); rc_build : bres'; rc_text : option (list N); rc_others : list verdict (* same input into Builder+Trace, Writer, Builder *) }.
@@ -52,7 +64,6 @@ Definition reader_nopanic (c : reader_case) : bool :=
 (* the verdict does not depend on the follower (a follower that panics gives no verdict; that is C06's business) *)
 Definition reader_indep (c : reader_case) : bool :=
   forallb (fun v => verdict_eqb v VPanic || verdict_eqb v (rc_verdict c)) (rc_others c).
-Definition has_known_kind (h : list ev) : bool := existsb (fun e => match e with EExtend _ k => known_invert_panic k | _ => false end) h.
 Record reader_results := { rr_n : nat; rr_accepted : nat; rr_model : list string; rr_indep : list string; rr_panic : list string; rr_known : list string; rr_conf : list string }.
 Definition bad {A} (f : A -> bool) (name : A -> string) (l : list A) : list string := firstn 5 (map name (filter (fun c => negb (f c)) l)).
 Definition reader_analyse (cs : list reader_case) : reader_results :=
@@ -65,7 +76,9 @@ Definition run_reader_suite (cs : list reader_case) :=
   let r := reader_analyse cs in
   [("RESULT", "corr.reader_model", rr_model r); ("RESULT", "C04.follower_independent", rr_indep r);
    ("RESULT", "C06.reader_nopanic", rr_panic r); ("RESULT", "C06.known.B4_invert_unimplemented", rr_known r);
-   ("RESULT", "C08.reader_conformant", rr_conf r)].
+   ("RESULT", "C08.reader_conformant", rr_conf r);
+   ("RESULT", "C02.built_graph_is_denotation", bad (fun c => match rc_verdict c with VOk => denote_agrees (rc_events c) (rc_build c) | _ => true end) (fun c => show (rc_in c)) cs);
+   ("RESULT", "C10.built_graph_is_simple", bad (fun c => built_is_simple (rc_build c)) (fun c => show (rc_in c)) cs)].
 
 (* ------------------------------------------------------------ walk *)
 Record walk_case := WC { wc_g : list atom; wc_res : wres; wc_events : list ev; wc_build : bres'; wc_text : option (list N);
@@ -82,6 +95,7 @@ Definition walk_model_ok (c : walk_case) : bool :=
   | _ => list_eqb ev_eqb h (wc_events c) || match validate (wc_g c) with Some _ => true | None => false end
   end.
 Definition join_numbers (h : list ev) : list N := flat_map (fun e => match e with EJoin _ r => [r] | _ => [] end) h.
+Definition graph_has_known_kind (g : list atom) : bool := existsb (fun a => known_invert_panic (akind a)) g.
 Record walk_results := { wr_n : nat; wr_ok : nat; wr_model : list string; wr_conf : list string; wr_joins : list string; wr_least : list string }.
 Definition walk_analyse (cs : list walk_case) : walk_results :=
   let nm := fun c => show_graph (wc_g c) in
@@ -93,6 +107,14 @@ Definition run_walk_suite (cs : list walk_case) :=
   let r := walk_analyse cs in
   [("RESULT", "corr.walk_model", wr_model r); ("RESULT", "C08.walk_conformant", wr_conf r); ("RESULT", "C08.walk_joins_matched", wr_joins r);
    ("RESULT", "C13.walk_joins_smallest_free", wr_least r);
+   (* C12 / C01 / C03: the graph rebuilt from the events, and the graph read back from the written text, against the
+      specification's depth-first renumbering (the second up to the reading shorthands) *)
+   ("RESULT", "C12.rebuilt_graph_is_arrival_first", bad (fun c => graph_has_known_kind (wc_g c) || match wc_res c, wc_build c with WOk, B'Ok g2 => list_eqb atom_eqb g2 (expected_roundtrip (wc_g c)) | WOk, _ => false | _, _ => true end) (fun c => show_graph (wc_g c)) cs);
+   ("RESULT", "C01.text_round_trip_is_isomorphic", bad (fun c => graph_has_known_kind (wc_g c) || match wc_g c with [] => true | _ => false end || match wc_res c, wc_reread c with
+        | WOk, B'Ok g2 => list_eqb atom_eqb g2 (map (fun a => {| akind := nk_kind (akind a); bonds := bonds a |}) (expected_roundtrip (wc_g c)))
+        | WOk, _ => false | _, _ => true end) (fun c => show_graph (wc_g c)) cs);
+   ("RESULT", "C01.known.empty_graph_written_as_empty_string", firstn 1 (bad (fun c => match wc_g c, wc_reread c with [], B'Ok _ => true | [], _ => false | _, _ => true end) (fun c => show_graph (wc_g c)) cs));
+   ("RESULT", "C14.written_text_is_fixed_point", bad (fun c => graph_has_known_kind (wc_g c) || match wc_g c with [] => true | _ => false end || match wc_res c with WOk => match wc_text c with Some t => otext_eqb (wc_text2 c) (Some t) | None => false end | _ => true end) (fun c => show_graph (wc_g c)) cs);
    ("RESULT", "C11.ok_iff_well_formed", bad (fun c => match wc_res c with WOk => wf (wc_g c) | WErr _ => negb (wf (wc_g c)) | _ => true end) (fun c => show_graph (wc_g c)) cs);
    ("RESULT", "C11.error_names_real_defect", bad (fun c => match wc_res c with WErr e => has_defect_b (wc_g c) (match e with HalfBond a b => DHalf a b | DuplicateBond a b => DDuplicate a b
         | UnknownTarget a b => DUnknown a b | IncompatibleBond a b => DIncompatible a b | Loop a => DLoop a end) | _ => true end) (fun c => show_graph (wc_g c)) cs);
@@ -123,6 +145,8 @@ Definition hist_inverse_ok (c : hist_case) : bool :=
   end.
 Definition run_hist_suite (cs : list hist_case) :=
   [("RESULT", "corr.hist_model", bad hist_model_ok (fun c => show_hist (hc_h c)) cs);
+   ("RESULT", "C10.errors_are_classified", bad (fun c => negb (conformant (hc_h c)) || match hc_h c with [] => true | _ => denote_agrees (hc_h c) (hc_build c) end) (fun c => show_hist (hc_h c)) cs);
+   ("RESULT", "C10.built_graph_is_simple", bad (fun c => negb (conformant (hc_h c)) || built_is_simple (hc_build c)) (fun c => show_hist (hc_h c)) cs);
    ("RESULT", "C09.history_inverse", bad hist_inverse_ok (fun c => show_hist (hc_h c)) cs);
    ("RESULT", "C06.builder_nopanic", bad (fun c => negb (conformant (hc_h c)) || has_known_kind (hc_h c) || match hc_build c with B'Panic => false | _ => true end) (fun c => show_hist (hc_h c)) cs);
    ("RESULT", "C06.known.B4_invert_unimplemented", firstn 2 (bad (fun c => negb (conformant (hc_h c)) || negb (has_known_kind (hc_h c)) || match hc_build c with B'Panic => false | _ => true end) (fun c => show_hist (hc_h c)) cs));
